@@ -46,8 +46,9 @@ def parseOp (s : String) : Option POp :=
       let tags ← parseTags etags
       let msg ← hexChars emsg
       let msgO := if msg.isEmpty then none else some msg
-      let r := if kind == "o" then HandlerResult.ok code (some blen)
-        else if kind == "e" then .err (some (code, some blen)) tags msgO
+      -- g / h: the handler's answer is the instruction to fetch the body (code 0, empty body), returned directly / inside an error
+      let r := if kind == "o" || kind == "g" then HandlerResult.ok code (some blen)
+        else if kind == "e" || kind == "h" then .err (some (code, some blen)) tags msgO
         else .err none tags msgO
       pure (.wrapped m.toList path bodyLen r)
     | _ => none
@@ -104,6 +105,10 @@ def handle (args : List String) (obs : String) : String :=
       | [logger, progsS], [resS, evS] =>
         -- X: the logger is uninstalled while a thread is still inside a logging call: the captured events are a prefix
         -- of what the thread logs (later calls go to the default logger); the next phase must be able to install its own
+        -- R: rounds of a logger being installed while another thread makes the first logging call with no logger set
+        if logger == "R" then
+          let want := "lost=0,panics=0,refused=0#"
+          (want, if ob == want then [] else ["installed-logger-lost-or-guard-panicked"]) else
         let isX := logger == "X"
         let sink := if logger == "A" ∨ logger == "S" ∨ isX then Sink.installed true else if logger == "D" then .installed false else .none
         match (progsS.splitOn "/").mapM (fun p => (splitNonEmpty p ",").mapM parseOp) with
